@@ -79,7 +79,8 @@ class DefineByMemoryAddressDDDIPrimitiveConfig(DDDIPrimitiveConfig):
 
 class ClearDynamicallyDefinedDataIdentifierDDDIPrimitiveConfig(DDDIPrimitiveConfig):
     data_identifier: AutoInt | None = Field(
-        description="The dynamically defined data identifier to be cleared. Omit if all dynamically defined identifiers should be cleared."
+        None,
+        description="The dynamically defined data identifier to be cleared. Omit if all dynamically defined identifiers should be cleared.",
     )
 
 
